@@ -120,8 +120,7 @@ def run_unit(ctx, unit):
     if extra:
         seen, firsts = set(), []
         for r in jm.read_rows(obs[2].stdout):
-            import json as _json
-            t = _json.dumps(jm.plain(r), sort_keys=True)      # rows are equal whatever the order of their members
+            t = jm.dumps(jm.plain(r))
             if t not in seen:
                 seen.add(t)
                 firsts.append(jm.plain(r))
